@@ -22,22 +22,24 @@ import (
 var c09LoadSkip = map[string]bool{"UlimitsConfig": true, "SSHKey": true, "SSHConfig": true, "EnvFile": true, "Extensions": true}
 
 // stripSkipped resets every field whose type is in c09LoadSkip (recursively), so the value is in the model's scope
-func stripSkipped(v reflect.Value) {
+func stripSkipped(v reflect.Value) { stripSkippedWith(v, c09LoadSkip) }
+
+func stripSkippedWith(v reflect.Value, skip map[string]bool) {
 	switch v.Kind() {
 	case reflect.Ptr:
 		if !v.IsNil() {
-			stripSkipped(v.Elem())
+			stripSkippedWith(v.Elem(), skip)
 		}
 	case reflect.Slice:
 		for i := 0; i < v.Len(); i++ {
-			stripSkipped(v.Index(i))
+			stripSkippedWith(v.Index(i), skip)
 		}
 	case reflect.Map:
 		if v.Type().Elem().Kind() == reflect.Struct {
 			for _, k := range v.MapKeys() {
 				e := reflect.New(v.Type().Elem()).Elem()
 				e.Set(v.MapIndex(k))
-				stripSkipped(e)
+				stripSkippedWith(e, skip)
 				v.SetMapIndex(k, e)
 			}
 		}
@@ -52,11 +54,11 @@ func stripSkipped(v reflect.Value) {
 			for ft.Kind() == reflect.Ptr || ft.Kind() == reflect.Slice || (ft.Kind() == reflect.Map && ft.Name() == "") {
 				ft = ft.Elem()
 			}
-			if c09LoadSkip[f.Type.Name()] || c09LoadSkip[ft.Name()] {
+			if skip[f.Type.Name()] || skip[ft.Name()] {
 				v.Field(i).Set(reflect.Zero(f.Type))
 				continue
 			}
-			stripSkipped(v.Field(i))
+			stripSkippedWith(v.Field(i), skip)
 		}
 	}
 }
@@ -77,7 +79,36 @@ func realLoad(raw json.RawMessage) any {
 	return map[string]any{"ok": core.EncodeVal(typedVal(p.Elem()))}
 }
 
+// realLoadExt: processExtensions (gathers the x- attributes of every mapping under "#extensions") then Transform.
+func realLoadExt(raw json.RawMessage) any {
+	var a corrArgs
+	if err := json.Unmarshal(raw, &a); err != nil {
+		return map[string]any{"bad": "args"}
+	}
+	t := modelStructs()[a.Type]
+	if t == nil {
+		return map[string]any{"bad": "unknown type " + a.Type}
+	}
+	tree, ok := core.DecodeVal(a.V).(map[string]any)
+	if !ok {
+		return map[string]any{"bad": "not a mapping"}
+	}
+	tree, err := loader.VerifProcessExtensions(tree, nil)
+	if err != nil {
+		return map[string]any{"err": decodeErrClass(a.Type, err)}
+	}
+	p := reflect.New(t)
+	if err := loader.Transform(tree, p.Interface()); err != nil {
+		return map[string]any{"err": decodeErrClass(a.Type, err)}
+	}
+	return map[string]any{"ok": core.EncodeVal(typedVal(p.Elem()))}
+}
+
+// the decode scope with extension maps kept
+var c09LoadSkipKeepExt = map[string]bool{"UlimitsConfig": true, "SSHKey": true, "SSHConfig": true, "EnvFile": true}
+
 func init() {
+	core.Register("c09.loadext", &core.CheckDef{Real: realLoadExt, DriverOp: "c09.loadext", Judge: judgeCorr("extensions + generic decode")})
 	core.Register("c09.load", &core.CheckDef{Real: realLoad, DriverOp: "c09.load", Judge: judgeCorr("generic decode")})
 }
 
@@ -126,5 +157,31 @@ func runC09Load(ctx *core.Ctx) {
 			n = []string{"ServiceConfig", "BuildConfig", "DeployConfig", "NetworkConfig"}[ctx.Rng.Intn(4)]
 		}
 		add(n, populate(ctx.Rng, ms[n], 2+ctx.Rng.Intn(3), []float64{0.2, 0.5, 0.8}[ctx.Rng.Intn(3)]), "random")
+	}
+	// the same with extension attributes kept: real renderings carrying x- keys → processExtensions → Transform
+	addExt := func(n string, v reflect.Value) {
+		stripSkippedWith(v, c09LoadSkipKeepExt)
+		p := reflect.New(v.Type())
+		p.Elem().Set(v)
+		b, err := yaml.Marshal(p.Interface())
+		if err != nil {
+			return
+		}
+		var tree any
+		if yaml.Unmarshal(b, &tree) != nil {
+			return
+		}
+		if _, ok := tree.(map[string]any); !ok {
+			return
+		}
+		ctx.Count("loadext")
+		ctx.Add("c09.loadext", corrArgs{Type: n, V: core.EncodeVal(normAny(tree))})
+	}
+	for _, n := range names {
+		addExt(n, populate(ctx.Rng, ms[n], 4, 0))
+	}
+	for i, k := 0, ctx.Pick(500, 20000); i < k; i++ {
+		n := names[ctx.Rng.Intn(len(names))]
+		addExt(n, populate(ctx.Rng, ms[n], 2+ctx.Rng.Intn(3), []float64{0.2, 0.5}[ctx.Rng.Intn(2)]))
 	}
 }
